@@ -9,6 +9,9 @@
 //!
 //! `sessdg` = the session pager with an idempotent statement and DowngradingConsistencyRetryPolicy (fault
 //! `W`, a WriteTimeout, is then answered with IgnoreWriteError: pager.rs 220-226, 278-290).
+//! `sess` / `sessdg` + `o` | `p` | `s`: WHERE the retry policy and the request timeout in force are configured
+//! (`PagingExecutor::new`, pager.rs 147-186): statement override next to a contradicting profile / the statement's
+//! own profile handle / the session's default profile (see `Via`).
 //! Consumers: `eager`, `slow`, `drop<k>` (drop after k rows), `pdrop<k>` (k rows, ONE more poll, drop).
 //!
 //! Case: `pg|sess|sessdg <skip 0|1> <consumer> <page> <page> ...`, page = `<rows>:<state>:<faults>`;
@@ -31,7 +34,8 @@ use scylla::client::session::Session;
 use scylla::client::session_builder::SessionBuilder;
 use scylla::errors::{NextPageError, NextRowError, PagerExecutionError, RequestAttemptError, RequestError};
 use scylla_cql_core::serialize::row::SerializedValues;
-use scylla::policies::retry::DowngradingConsistencyRetryPolicy;
+use scylla::client::execution_profile::ExecutionProfile;
+use scylla::policies::retry::{DefaultRetryPolicy, DowngradingConsistencyRetryPolicy, FallthroughRetryPolicy, RetryPolicy};
 use scylla::statement::unprepared::Statement;
 use scylla::verif_hooks::connection::{VerifConn, VerifConnOptions};
 use std::cell::RefCell;
@@ -80,7 +84,24 @@ enum Consumer {
     PollDrop(usize),
 }
 
+/// WHERE the retry policy and the request timeout in force for the pager are configured
+/// (`PagingExecutor::new`, pager.rs 147-186: statement override -> the statement's own execution profile
+/// handle -> the session's default profile). Kind suffix of `sess` / `sessdg`: none, `o`, `p`, `s`.
+#[derive(Clone, Copy, Debug, PartialEq)]
+enum Via {
+    /// on the statement itself (`set_retry_policy` / `set_request_timeout`), no profile handle on it
+    Statement,
+    /// `o`: on the statement, which ALSO carries a profile handle saying otherwise (FallthroughRetryPolicy,
+    /// a 60 s timeout): the statement's own settings must win
+    Override,
+    /// `p`: only in the execution profile whose handle the statement carries (the session's default differs)
+    StmtProfile,
+    /// `s`: only in the session's default execution profile (a session of its own per case)
+    SessProfile,
+}
+
 struct Case {
+    via: Via,
     /// `pg`: single-connection pager; `sess`: `Session::execute_iter` against a one-node mock cluster
     session: bool,
     /// `sessdg`: session pager, idempotent statement, DowngradingConsistencyRetryPolicy
@@ -175,11 +196,17 @@ fn parse_case(line: &str) -> Option<Case> {
         }
         cluster = (b[3] - b'0') as usize;
         idempotent = b[4] == b'i';
-    } else if !["pg", "pgk", "sessk", "sess", "squery", "squeryv", "scache", "sessdg", "ctl"].contains(&w[0]) {
+    } else if !["pg", "pgk", "sessk", "sess", "squery", "squeryv", "scache", "sessdg", "ctl", "sesso", "sessp", "sesss", "sessdgo", "sessdgp", "sessdgs"].contains(&w[0]) {
         return None;
     }
+    let via = match w[0] {
+        "sesso" | "sessdgo" => Via::Override,
+        "sessp" | "sessdgp" => Via::StmtProfile,
+        "sesss" | "sessdgs" => Via::SessProfile,
+        _ => Via::Statement,
+    };
     let session = !(w[0] == "pg" || w[0] == "pgk");
-    let downgrading = w[0] == "sessdg";
+    let downgrading = w[0].starts_with("sessdg");
     let unprepared = w[0] == "squery" || w[0] == "squeryv";
     let with_values = w[0] == "squeryv";
     let caching = w[0] == "scache";
@@ -261,7 +288,10 @@ fn parse_case(line: &str) -> Option<Case> {
     if comp.is_some() && (cluster > 0 || ctl) {
         return None; // compression is scripted for the single-node families
     }
-    Some(Case { session, downgrading, unprepared, with_values, caching, pk_error, ctl, sharded, cluster, idempotent, ext, always_full, comp, skip, consumer, pages })
+    if via != Via::Statement && all.iter().any(|c| "cXkK".contains(*c)) {
+        return None; // connection loss / constructor paths are scripted for the plain kinds
+    }
+    Some(Case { via, session, downgrading, unprepared, with_values, caching, pk_error, ctl, sharded, cluster, idempotent, ext, always_full, comp, skip, consumer, pages })
 }
 
 // ---------------------------------------------------------------------------------------------
@@ -1099,7 +1129,9 @@ async fn run_case(case: &Case, ctx: &mut Ctx) -> String {
             e.resize_with(48, || None);
         }
     });
-    let mut env = if case.ctl { None } else { ENVS.with(|e| e.borrow_mut()[slot].take()) };
+    // `via` = session profile: the case's policy / timeout live in the session's DEFAULT profile, so the session is the case's own
+    let own_session = case.ctl || case.via == Via::SessProfile;
+    let mut env = if own_session { None } else { ENVS.with(|e| e.borrow_mut()[slot].take()) };
     if env.is_none() {
         let script = Arc::new(Mutex::new(Script::default()));
         let min_conn = Arc::new(AtomicUsize::new(0));
@@ -1170,13 +1202,13 @@ async fn run_case(case: &Case, ctx: &mut Ctx) -> String {
         if case.session {
             // a one-node cluster: the control connection's system.peers / system.local are answered by
             // the handler; default execution profile (DefaultRetryPolicy, no speculative execution)
-            let session = match SessionBuilder::new()
-                .known_node_addr(node.addr)
-                .compression(case.comp)
-                .fetch_schema_metadata(false)
-                .build()
-                .await
-            {
+            let mut builder = SessionBuilder::new().known_node_addr(node.addr).compression(case.comp).fetch_schema_metadata(false);
+            if case.via == Via::SessProfile {
+                let policy: Arc<dyn RetryPolicy> = if case.downgrading { Arc::new(DowngradingConsistencyRetryPolicy::new()) } else { Arc::new(DefaultRetryPolicy::new()) };
+                let timeout = if case.pages.iter().any(|p| p.faults.contains(&'T')) { Some(REQUEST_TIMEOUT) } else { None };
+                builder = builder.default_execution_profile_handle(ExecutionProfile::builder().retry_policy(policy).request_timeout(timeout).build().into_handle());
+            }
+            let session = match builder.build().await {
                 Ok(s) => s,
                 Err(e) => {
                     ctx.fail(format!("harness: cannot build session: {e}"));
@@ -1224,7 +1256,7 @@ async fn run_case(case: &Case, ctx: &mut Ctx) -> String {
         }
     };
     let has_timeout_fault = case.pages.iter().any(|p| p.faults.contains(&'T'));
-    let dirty = case.ctl || matches!(case.consumer, Consumer::Kill(_)) || case.pages.iter().any(|p| p.faults.iter().any(|c| "TcXkK".contains(*c)));
+    let dirty = own_session || matches!(case.consumer, Consumer::Kill(_)) || case.pages.iter().any(|p| p.faults.iter().any(|c| "TcXkK".contains(*c)));
     let conn = env.conn.as_ref().unwrap();
     prepared.set_use_cached_result_metadata(case.skip);
     if case.downgrading {
@@ -1232,6 +1264,28 @@ async fn run_case(case: &Case, ctx: &mut Ctx) -> String {
         prepared.set_retry_policy(Some(Arc::new(DowngradingConsistencyRetryPolicy::new())));
     }
     prepared.set_request_timeout(if has_timeout_fault { Some(REQUEST_TIMEOUT) } else { None });
+    // the `via` dimension: where the policy and the timeout IN FORCE come from (pager.rs 147-186)
+    let case_policy = || -> Arc<dyn RetryPolicy> { if case.downgrading { Arc::new(DowngradingConsistencyRetryPolicy::new()) } else { Arc::new(DefaultRetryPolicy::new()) } };
+    match case.via {
+        Via::Statement => {}
+        Via::Override => {
+            prepared.set_retry_policy(Some(case_policy()));
+            prepared.set_execution_profile_handle(Some(
+                ExecutionProfile::builder().retry_policy(Arc::new(FallthroughRetryPolicy::new())).request_timeout(Some(Duration::from_secs(60))).build().into_handle(),
+            ));
+        }
+        Via::StmtProfile => {
+            prepared.set_retry_policy(None);
+            prepared.set_request_timeout(None);
+            prepared.set_execution_profile_handle(Some(
+                ExecutionProfile::builder().retry_policy(case_policy()).request_timeout(if has_timeout_fault { Some(REQUEST_TIMEOUT) } else { None }).build().into_handle(),
+            ));
+        }
+        Via::SessProfile => {
+            prepared.set_retry_policy(None);
+            prepared.set_request_timeout(None);
+        }
+    }
     if case.cluster > 0 {
         prepared.set_is_idempotent(case.idempotent);
     }
@@ -1901,6 +1955,80 @@ pub fn generate(rng: &mut Rng, tier: Tier, emit: &mut dyn FnMut(String)) {
     gen_entry_points(rng, tier == Tier::Thorough, emit);
     gen_big_pages(rng, tier == Tier::Thorough, emit);
     gen_compressed(rng, tier == Tier::Thorough, emit);
+    gen_via(rng, tier == Tier::Thorough, emit);
+}
+
+/// WHERE the policy in force is configured (`PagingExecutor::new`'s fallback, pager.rs 147-186): the scripts of
+/// the downgrading family (whose outcome differs from the default policy's on `W`, `Q`, `V`) and of the `sess`
+/// family with the faults on which DefaultRetryPolicy differs from FallthroughRetryPolicy (`R`), with the
+/// policy / the request timeout set on the statement next to a contradicting profile (`o`), only in the
+/// statement's own profile (`p`), only in the session's default profile (`s`: one session per case).
+fn gen_via(rng: &mut Rng, thorough: bool, emit: &mut dyn FnMut(String)) {
+    let (len, size, rows) = if thorough { (4, 2, 5) } else { (3, 2, 4) };
+    let mut tick = 0usize;
+    for sizes in compositions(len, size, rows) {
+        let n = sizes.len();
+        let total: usize = sizes.iter().sum();
+        for k in 0..n {
+            for (dg, f) in [(true, "W"), (true, "Q"), (true, "V"), (true, "QW"), (true, "uW"), (true, "o"), (false, "R"), (false, "RR"), (false, "uR"), (false, "o")] {
+                tick += 1;
+                let suffix = ["o", "p", "s"][tick % 3];
+                if suffix == "s" && !thorough && tick % 4 != 0 {
+                    continue; // every such case builds a session of its own
+                }
+                let mut faults = vec![vec![]; n];
+                faults[k] = f.chars().collect();
+                let sts = states(rng, n, false);
+                let consumer = match (k + total) % 5 {
+                    0 => Consumer::Slow,
+                    1 => Consumer::Drop(total / 2),
+                    _ => Consumer::Eager,
+                };
+                let kind = format!("{}{}", if dg { "sessdg" } else { "sess" }, suffix);
+                emit(with_kind(fmt_case(tick % 2 == 0, consumer, &build(&sizes, &sts, &faults)), &kind));
+            }
+        }
+    }
+    for _ in 0..(if thorough { 3000 } else { 300 }) {
+        let n = 1 + rng.below(8) as usize;
+        let sizes: Vec<usize> = (0..n).map(|_| if rng.chance(1, 5) { 0 } else { rng.below(12) as usize }).collect();
+        let sts = states(rng, n, false);
+        let dg = rng.chance(2, 3);
+        let mut faults = vec![vec![]; n];
+        for f in faults.iter_mut() {
+            if rng.chance(1, 6) {
+                *f = vec![*rng.pick(&['u', 'd'])];
+            }
+        }
+        for f in faults.iter_mut() {
+            if rng.chance(1, 5) {
+                f.push(if dg { *rng.pick(&['Q', 'V']) } else { 'R' });
+            }
+        }
+        if rng.chance(3, 5) {
+            let k = rng.below(n as u64) as usize;
+            faults[k].push(if rng.chance(1, 6) { 'o' } else if dg { 'W' } else { 'R' });
+        }
+        let total: usize = sizes.iter().sum();
+        let consumer = match rng.below(5) {
+            0 => Consumer::Slow,
+            1 => Consumer::Drop(rng.below(total as u64 + 1) as usize),
+            _ => Consumer::Eager,
+        };
+        let suffix = *rng.pick(&["o", "p", "o", "p", "o", "p", "s"]);
+        let kind = format!("{}{}", if dg { "sessdg" } else { "sess" }, suffix);
+        emit(with_kind(fmt_case(rng.bool(), consumer, &build(&sizes, &sts, &faults)), &kind));
+    }
+    // the request timeout in force (real time: few cases)
+    for i in 0..(if thorough { 12 } else { 3 }) {
+        let n = 1 + (i % 3);
+        let sizes: Vec<usize> = (0..n).map(|_| 1 + rng.below(3) as usize).collect();
+        let sts = states(rng, n, false);
+        let mut faults = vec![vec![]; n];
+        faults[i % n] = vec!['T'];
+        let kind = ["sesso", "sessp", "sesss"][i % 3];
+        emit(with_kind(fmt_case(i % 2 == 0, Consumer::Eager, &build(&sizes, &sts, &faults)), kind));
+    }
 }
 
 /// Frame COMPRESSION as a dimension (modes 4..7: LZ4 / Snappy negotiated, the node compresses every page):
